@@ -1,33 +1,12 @@
 """Helpers shared by the checks C20, C21, C22, C27 (kept out of common.py on purpose)."""
-import json
 import os
 
 from . import common as K
 
 
 def extract_facts(ctx):
-    """Same as common.extract_facts, but writes Facts<pid>.lean into THIS tree's lean/Hv/Generated
-    (bin/extract defaults to /verif/lean/Hv/Generated, which is wrong inside a git worktree)."""
-    if not os.path.exists(os.path.join(K.BIN, "extract")) or os.environ.get("VERIF_REBUILD_EXTRACT", "1") == "1":
-        K.build_extract()
-    out_dir = os.path.join(K.LEAN, "Hv", "Generated")
-    os.makedirs(out_dir, exist_ok=True)
-    with K.Lock("facts-" + ctx.pid):
-        rc, out = K.sh([os.path.join(K.BIN, "extract"), "-repo", K.REPO, "-out", out_dir, ctx.pid])
-    facts, where, errs = {}, {}, []
-    for line in out.splitlines():
-        if line.startswith("FACTS "):
-            _, pid, js = line.split(" ", 2)
-            for k, v in json.loads(js).items():
-                facts[k] = v["value"]
-                where[k] = v["where"]
-        elif line.startswith("FACTERR "):
-            errs.append(line)
-    if rc != 0:
-        errs.append("extract exit %d: %s" % (rc, out[-400:]))
-    ctx.facts, ctx.fact_where, ctx.fact_errs = facts, where, errs
-    ctx.log("facts:", facts, errs or "")
-    return facts, where, errs
+    """common.extract_facts now passes -out itself; kept as a thin alias for the four checks."""
+    return K.extract_facts(ctx)
 
 
 def fact_args(facts):
@@ -70,8 +49,8 @@ def oracle_sweep(ctx, c, domain, drv_args, oracle, covered_by=()):
             continue
         fid, text = r
         hits += 1
-        if fid and fid in getattr(ctx, "confirmed", {}):
-            continue    # decide_standard already reported it (as KNOWN-FINDING or as VIOLATION)
+        if fid and (fid in getattr(ctx, "confirmed", {}) or fid in K.known_ids(ctx.pid)):
+            continue    # decide_standard already reported it (as KNOWN-FINDING or as VIOLATION) / a recorded finding
         if fid and fid in covered_by:
             continue
         rep.update({"correspondence": domain, "drv_args": list(drv_args), "oracle": text})
